@@ -501,3 +501,46 @@ def polygon_groups(tier):
     gs.append(Group("ConvexPolygon in Plane", h_polygon_in_plane, ["Geometry3D.geometry.polygon:ConvexPolygon.in_", "Geometry3D.geometry.plane:Plane.__contains__"],
                     stubs=exact_stubs(), world="COORD", timeout_s=600, prove_ms=30000))
     return gs
+
+
+def h_polygon_in_polyhedron(n, F_):
+    """ConvexPolygon in ConvexPolyhedron: all vertices; by convexity of the half-space denotation every convex combination of the vertices"""
+    def h(vc):
+        g = C.G()
+        pg = C.polygon(vc, "K", n, convex=False)
+        ph = C.polyhedron_faces(vc, "B", F_)
+        pts = [SP.vec(p) for p in pg.points]
+        lam = [vc.real("lam%d" % i) for i in range(n)]
+        for l in lam:
+            vc.assume(l >= 0, "convex combination: weights >= 0")
+        vc.assume(SP.eq(sum(lam), 1), "convex combination: weights sum to 1")
+        x = tuple(sum(lam[i] * pts[i][k] for i in range(n)) for k in range(3))
+        if vc.symbolic:
+            ghosts = []
+            for f in ph.convex_polygons:
+                gfun = lambda y, f=f: SP.dot(SP.sub(y, SP.vec(f.center_point)), SP.vec(f.plane.n))
+                vc.hint("face constraint is affine", gfun(x) == sum(lam[i] * gfun(pts[i]) for i in range(n)) + (1 - sum(lam)) * SP.dot(SP.neg(SP.vec(f.center_point)), SP.vec(f.plane.n)))
+                ghosts += [gfun(x)] + [gfun(p) for p in pts] + [SP.dot(SP.neg(SP.vec(f.center_point)), SP.vec(f.plane.n))]
+            vc.ghost(*ghosts)
+        out = vc.call(lambda: pg in ph)
+        vc.ensure("ConvexPolygon in ConvexPolyhedron does not raise", out.returned)
+        if out.returned:
+            rf = rbool(out.value)
+            vc.ensure("ConvexPolygon in ConvexPolyhedron <=> every vertex is in it", Iff(rf, And(*[C.polyhedron_member(p, ph) for p in pts])))
+            vc.ensure("ConvexPolygon in ConvexPolyhedron => every convex combination of its vertices (every point of the polygon) is in it", Implies(rf, C.polyhedron_member(x, ph)))
+        else:
+            vc.note(repr(out.value))
+
+    return h
+
+
+_polygon_groups_core = polygon_groups
+
+
+def polygon_groups(tier):
+    gs = _polygon_groups_core(tier)
+    ex = exact_stubs() + [("Geometry3D.geometry.polygon:ConvexPolygon.__contains__", x_polygon_contains_point), ("Geometry3D.geometry.polyhedron:ConvexPolyhedron.__contains__", x_polyhedron_contains_point)]
+    for n, F_ in ((3, 4), (4, 6), (5, 5)):
+        gs.append(Group("ConvexPolygon[%d] in ConvexPolyhedron[%d]" % (n, F_), h_polygon_in_polyhedron(n, F_), ["Geometry3D.geometry.polyhedron:ConvexPolyhedron.__contains__"], stubs=ex,
+                        world="COORD", timeout_s=600, prove_ms=30000))
+    return gs
